@@ -52,7 +52,16 @@ METHOD_MODELS: dict[str, Callable] = {
 
 
 # the `np` name inside interpreted code: dtype names are inert tags (abstract arrays are untyped), `np.newaxis` is None; functions are MODELS entries
-NP_NAMESPACE = {"__namespace__": True, "newaxis": None, **{t: t for t in ("int8", "int16", "int32", "int64", "uint8", "bool_", "float32", "float64", "intp")}}
+class _IndexExpr:
+    """`np.s_[...]` / `np.index_exp[...]`: the subscript itself, as a value"""
+    def __init__(self, as_tuple: bool) -> None:
+        self.as_tuple = as_tuple
+
+    def __getitem__(self, key):
+        return key if isinstance(key, tuple) or not self.as_tuple else (key,)
+
+
+NP_NAMESPACE = {"__namespace__": True, "newaxis": None, "s_": _IndexExpr(False), "index_exp": _IndexExpr(True), **{t: t for t in ("int8", "int16", "int32", "int64", "uint8", "bool_", "float32", "float64", "intp")}}
 
 
 def make_name_hook(index, module, hooks_of):
